@@ -279,7 +279,7 @@ func init() {
 		ID:    "C02",
 		Level: "model_checking",
 		Shards: func(tier string) int {
-			return len(c02Histories(tier)) // one worker process per producer history, 16 at a time
+			return len(c02Units(tier)) // one worker process per (producer history, part of its level-1 subtrees), 16 at a time
 		},
 		Budget: func(tier string) time.Duration {
 			if tier == "thorough" {
@@ -300,6 +300,21 @@ func init() {
 			ev.Coverage["explanation"] = "states = distinct follower states (delivered prefix, pool bytes, warmed views) summed over producer histories; every transition is an execution of the real InsertChain/AddAccountBlocks on a real node"
 		},
 	})
+}
+
+// c02Units: the three long scripted histories are split into 4 parts each (by level-1 successor), the others are one unit.
+func c02Units(tier string) [][3]int {
+	var u [][3]int
+	for hi := range c02Histories(tier) {
+		parts := 1
+		if hi < 3 {
+			parts = 4
+		}
+		for p := 0; p < parts; p++ {
+			u = append(u, [3]int{hi, p, parts})
+		}
+	}
+	return u
 }
 
 func runC02(c *xs.Ctx, r *xs.Result) {
@@ -324,10 +339,12 @@ func runC02(c *xs.Ctx, r *xs.Result) {
 	}
 	hs := c02Histories(c.Tier)
 	r.Count("histories_total", 0)
-	for hi, hist := range hs {
-		if !c.Mine(hi) {
+	for ui, unit := range c02Units(c.Tier) {
+		if !c.Mine(ui) {
 			continue
 		}
+		hi, hist := unit[0], hs[unit[0]]
+		part, parts = unit[1], unit[2]
 		if c.Expired() {
 			r.Incomplete = true
 			r.Note("deadline reached before history %d", hi)
@@ -353,6 +370,9 @@ func count(as []fAct, k ...string) int {
 	}
 	return n
 }
+
+// part/parts select which level-1 subtrees of the schedule search this worker explores
+var part, parts = 0, 1
 
 func exploreSchedules(c *xs.Ctx, r *xs.Result, hist []ops.Op, b c02bounds) {
 	rec, p := produce(c, hist)
@@ -423,7 +443,10 @@ func exploreSchedules(c *xs.Ctx, r *xs.Result, hist []ops.Op, b c02bounds) {
 				succ = append(succ, fAct{K: "Q", I: 2})
 			}
 		}
-		for _, a := range succ {
+		for si, a := range succ {
+			if len(it.acts) == 0 && si%parts != part {
+				continue // another worker's level-1 subtree
+			}
 			acts := append(append([]fAct{}, it.acts...), a)
 			key, nn, viol := followerRun(c, r, rec, hist, acts, false)
 			r.Count("transitions", 1)
